@@ -146,25 +146,53 @@ pub proof fn lemma_zero_words_no_bits(a: Seq<u64>)
 // =====================================================================
 // prelude (assumed)
 // =====================================================================
-// K-BIT: contract of the three bit helpers.  They are NOT rewritten for Verus (it
-// panics on `&u64 & u64`, DESIGN R4); the contract is proved for the unmodified text
-// by Kani (unit columnar_bits) and taken here as given.
-#[verifier::external_body]
-fn bit(words: &[u64], slot: usize) -> (r: bool)
-    ensures r == bit_at(words@, slot as int)
-{ unimplemented!() }
-#[verifier::external_body]
-fn set_bit(words: &mut [u64], slot: usize)
-    ensures
-        final(words)@.len() == old(words)@.len(),
-        forall|s: int| 0 <= s ==> #[trigger] bit_at(final(words)@, s) == ((s == slot && slot / 64 < old(words)@.len()) || bit_at(old(words)@, s)),
-{ unimplemented!() }
-#[verifier::external_body]
-fn clear_bit(words: &mut [u64], slot: usize)
-    ensures
-        final(words)@.len() == old(words)@.len(),
-        forall|s: int| 0 <= s ==> #[trigger] bit_at(final(words)@, s) == (s != slot && bit_at(old(words)@, s)),
-{ unimplemented!() }
+// R4: the three bit helpers are the real text of columnar.rs (below, `//@fn bit`, `set_bit`, `clear_bit`),
+// with one rewrite: `|w| w & (..)` -> `|w| *w & (..)` (Verus panics on a bit operator whose left operand is a
+// reference).  Assumed: the contract of Option::is_some_and (common/std_extra.rs); proved by (bit_vector): the word facts.
+pub broadcast proof fn lemma_mask_test(w: u64, k: u64)
+    requires k < 64
+    ensures (#[trigger] (w & (1u64 << k)) != 0) == (((w >> k) & 1u64) == 1u64)
+{
+    assert(k < 64 ==> (((w & (1u64 << k)) != 0) == (((w >> k) & 1u64) == 1u64))) by (bit_vector);
+}
+pub broadcast proof fn lemma_or_mask(v: u64, k: u64, j: u64)
+    requires k < 64, j < 64
+    ensures ((#[trigger] (((v | (1u64 << k)) >> j) & 1u64)) == 1u64) == (j == k || ((v >> j) & 1u64) == 1u64)
+{
+    assert(k < 64 && j < 64 ==> (((((v | (1u64 << k)) >> j) & 1u64) == 1u64) == (j == k || ((v >> j) & 1u64) == 1u64))) by (bit_vector);
+}
+pub broadcast proof fn lemma_andnot_mask(v: u64, k: u64, j: u64)
+    requires k < 64, j < 64
+    ensures ((#[trigger] (((v & !(1u64 << k)) >> j) & 1u64)) == 1u64) == (j != k && ((v >> j) & 1u64) == 1u64)
+{
+    assert(k < 64 && j < 64 ==> (((((v & !(1u64 << k)) >> j) & 1u64) == 1u64) == (j != k && ((v >> j) & 1u64) == 1u64))) by (bit_vector);
+}
+
+//@fn bit ret=r
+//@replace "|w| w & (" => "|w| *w & (" :: R4: Verus panics on a bit operator whose left operand is a reference; the explicit dereference denotes the same value
+//@ensures
+        r == bit_at(words@, slot as int),       //#reads_the_slot
+//@closure is_some_and#1 (w: &u64) -> (b: bool) ensures b == ((*w & (1u64 << ((slot % 64) as u64))) != 0)
+//@atstart
+    broadcast use lemma_mask_test;
+//@end
+
+//@fn set_bit
+//@ensures
+        final(words)@.len() == old(words)@.len(),       //#keeps_length
+        forall|s: int| 0 <= s ==> #[trigger] bit_at(final(words)@, s) == ((s == slot && slot / 64 < old(words)@.len()) || bit_at(old(words)@, s)),      //#sets_exactly_the_slot
+//@atstart
+    broadcast use lemma_or_mask;
+//@end
+
+//@fn clear_bit
+//@ensures
+        final(words)@.len() == old(words)@.len(),       //#keeps_length
+        forall|s: int| 0 <= s ==> #[trigger] bit_at(final(words)@, s) == (s != slot && bit_at(old(words)@, s)),     //#clears_exactly_the_slot
+//@atstart
+    broadcast use lemma_andnot_mask;
+//@end
+
 pub assume_specification[ usize::div_ceil ](a: usize, b: usize) -> (r: usize)
     requires b != 0,
     ensures r as int == (a as int + b as int - 1) / (b as int),
